@@ -21,8 +21,10 @@ package props
 import (
 	"context"
 	"fmt"
+	"reflect"
 	"runtime"
 	"strings"
+	"sync"
 	"sync/atomic"
 	"testing"
 	"time"
@@ -87,6 +89,81 @@ func c16sDoneOnly(primary, other context.Context) <-chan struct{} {
 	return bigbuff.CombineContext(primary, nil, other).Done()
 }
 
+// c16sZero — contexts whose dynamic type is a zero-size struct (the value is always the zero value of its type): the
+// state lives in a package-level table keyed by the type, as for a process-wide "shutdown" context. Goroutines of the
+// context package may look at such a context long after its case has ended, so a type's state is never replaced:
+// each of the 48 instantiations is used by at most one case per process.
+type c16sZero[T any] struct{}
+
+var c16sZeroStates sync.Map // reflect.Type of T -> *c16sCustom
+
+func (c16sZero[T]) state() *c16sCustom {
+	st, _ := c16sZeroStates.Load(reflect.TypeOf((*T)(nil)))
+	return st.(*c16sCustom)
+}
+func (c16sZero[T]) Deadline() (time.Time, bool) { return time.Time{}, false }
+func (c c16sZero[T]) Done() <-chan struct{}     { return c.state().Done() }
+func (c c16sZero[T]) Err() error                { return c.state().Err() }
+func (c c16sZero[T]) Value(k any) any           { return c.state().Value(k) }
+
+func c16sZeroNew[T any](st *c16sCustom) context.Context {
+	c16sZeroStates.Store(reflect.TypeOf((*T)(nil)), st)
+	return c16sZero[T]{}
+}
+
+var c16sZeroMakers = []func(*c16sCustom) context.Context{
+	c16sZeroNew[[0]byte],
+	c16sZeroNew[[1]byte],
+	c16sZeroNew[[2]byte],
+	c16sZeroNew[[3]byte],
+	c16sZeroNew[[4]byte],
+	c16sZeroNew[[5]byte],
+	c16sZeroNew[[6]byte],
+	c16sZeroNew[[7]byte],
+	c16sZeroNew[[8]byte],
+	c16sZeroNew[[9]byte],
+	c16sZeroNew[[10]byte],
+	c16sZeroNew[[11]byte],
+	c16sZeroNew[[12]byte],
+	c16sZeroNew[[13]byte],
+	c16sZeroNew[[14]byte],
+	c16sZeroNew[[15]byte],
+	c16sZeroNew[[16]byte],
+	c16sZeroNew[[17]byte],
+	c16sZeroNew[[18]byte],
+	c16sZeroNew[[19]byte],
+	c16sZeroNew[[20]byte],
+	c16sZeroNew[[21]byte],
+	c16sZeroNew[[22]byte],
+	c16sZeroNew[[23]byte],
+	c16sZeroNew[[24]byte],
+	c16sZeroNew[[25]byte],
+	c16sZeroNew[[26]byte],
+	c16sZeroNew[[27]byte],
+	c16sZeroNew[[28]byte],
+	c16sZeroNew[[29]byte],
+	c16sZeroNew[[30]byte],
+	c16sZeroNew[[31]byte],
+	c16sZeroNew[[32]byte],
+	c16sZeroNew[[33]byte],
+	c16sZeroNew[[34]byte],
+	c16sZeroNew[[35]byte],
+	c16sZeroNew[[36]byte],
+	c16sZeroNew[[37]byte],
+	c16sZeroNew[[38]byte],
+	c16sZeroNew[[39]byte],
+	c16sZeroNew[[40]byte],
+	c16sZeroNew[[41]byte],
+	c16sZeroNew[[42]byte],
+	c16sZeroNew[[43]byte],
+	c16sZeroNew[[44]byte],
+	c16sZeroNew[[45]byte],
+	c16sZeroNew[[46]byte],
+	c16sZeroNew[[47]byte],
+}
+
+var c16sZeroNext atomic.Int32
+
 type c16sInput struct {
 	kind      string
 	ctx       context.Context
@@ -101,8 +178,17 @@ func TestC16Static(t *testing.T) {
 		var in []*c16sInput
 		var trace []string
 		for i := 0; i < n; i++ {
-			x := &c16sInput{kind: rapid.SampledFrom([]string{"std", "std", "std", "custom", "never", "detached"}).Draw(t, "kind")}
+			x := &c16sInput{kind: rapid.SampledFrom([]string{"std", "std", "std", "custom", "never", "detached", "zero"}).Draw(t, "kind")}
+			zi := -1
+			if x.kind == "zero" {
+				if zi = int(c16sZeroNext.Add(1)) - 1; zi >= len(c16sZeroMakers) {
+					x.kind = "std"
+				}
+			}
 			switch x.kind {
+			case "zero":
+				c := &c16sCustom{idx: i, done: make(chan struct{})}
+				x.ctx, x.cancel = c16sZeroMakers[zi](c), c.cancel
 			case "std":
 				c, cancel := context.WithCancel(context.Background())
 				x.ctx, x.cancel = context.WithValue(c, c16sKey(i), i*10), cancel
